@@ -311,4 +311,32 @@ def readTsvSimple (text : Str) : Option (String × List (Int × Num)) :=
         | _ => none).map fun d => (String.ofList f, d)
     | _ => none
 
+/-! ### `save_metadata` / `load_metadata` (phylib/io/model.py:118-141) -/
+
+/-- `d[k] = v` on a dictionary whose keys are table values -/
+def setKV (d : List (Num × Num)) (k v : Num) : List (Num × Num) :=
+  match d with
+  | [] => [(k, v)]
+  | (k', v') :: t => if k' == k then (k', v) :: t else (k', v') :: setKV t k v
+
+/-- `out[field][cluster_id] = value`, creating `out[field]` when it is absent -/
+def setNested (out : List (String × List (Num × Num))) (field : String) (cid v : Num) :
+    List (String × List (Num × Num)) :=
+  match out with
+  | [] => [(field, [(cid, v)])]
+  | (f, d) :: t => if f == field then (f, setKV d cid v) :: t else (f, d) :: setNested t field cid v
+
+/-- one row of the loop of `load_metadata` (model.py:128-135) -/
+def metaStep (out : List (String × List (Num × Num))) (row : List (String × Num)) :
+    List (String × List (Num × Num)) :=
+  match row.lookup "cluster_id" with
+  | some cid =>
+    row.foldl (fun out fc => if fc.1 != "cluster_id" then setNested out fc.1 cid fc.2 else out) out
+  | none => out
+
+/-- `load_metadata(filename)`: the file is read with the CLUSTER-TABLE reader `read_tsv` (empty cells
+dropped) and regrouped as {field: {cluster_id: value}}; `save_metadata` is `_write_tsv_simple` -/
+def loadMetadata (text : Str) : Option (List (String × List (Num × Num))) :=
+  (readTsvFile tryMakeNumber text).map fun rows => rows.foldl metaStep []
+
 end PhyVerif.C18
